@@ -11,7 +11,7 @@ the other tenants' requests removed and compares what each tenant observes.
 * `C10_point_read_is_own`: a point read answers from the caller's own id range and only when the
   stored tenant index is the caller's; `C10_namespace_selector`: a namespace selector never matches
   a document of another namespace;
-* `C10_write_frame_insert/_delete/_update/_batchDeleteIds/_batchDeleteFilter/_bulkInsert`: a write / delete /
+* `C10_write_frame_insert/_delete/_update/_batchDeleteIds/_batchDeleteFilter/_bulkInsert/_bulkLoad`: a write / delete /
   update / batch delete (ids or any filter) / BulkInsert stream of tenant B leaves every read of a tenant A with another
   index unchanged (found / not-found included);
 * `C10_filter_blind_to_reserved`, `C10_reserved_filter_refused_search/_batchDelete`: a client filter naming a
@@ -311,6 +311,46 @@ theorem C10_write_frame_batchDeleteFilter (parse : String → Option Nat) (s : S
         rw [this _ s hm] at hafter
         cases hafter
     · rw [deleteMany_docs _ _ _ hm]
+
+theorem loadAll_docs (s : S) (B : List (Nat × List Nat × Meta)) (j : Nat) (h : j ∉ B.map (·.1)) :
+    alookup j (loadAll s B).1.docs = alookup j s.docs := by
+  induction B generalizing s with
+  | nil => rfl
+  | cons b rest ih =>
+    obtain ⟨g, v, m⟩ := b
+    simp only [List.map_cons, List.mem_cons, not_or] at h
+    unfold loadAll
+    have he := engineInsert_docs s g v m j h.1
+    split
+    · rename_i s' hs'
+      rw [hs'] at he
+      simp only
+      rw [ih _ h.2]; exact he
+    · rename_i s' hs'
+      rw [hs'] at he
+      simp only
+      rw [ih _ h.2]; exact he
+
+/-- **BulkLoadHnsw of B never changes a read of A** -/
+theorem C10_write_frame_bulkLoad (s : S) (a b : Tn) (hab : a.idx ≠ b.idx) (items : List Item)
+    (la : Nat) (ns : String) : readDoc (Srv.bulkLoad s b items).1 a la ns = readDoc s a la ns := by
+  apply readDoc_congr
+  intro g hg
+  unfold Srv.bulkLoad
+  simp only
+  split
+  · rfl
+  split
+  · rfl
+  rw [noteInserts_docs, decCount_docs, loadAll_docs]
+  · split <;> rfl
+  · intro hm
+    obtain ⟨x, hx, hxg⟩ := List.mem_map.mp hm
+    obtain ⟨it, hit, rfl⟩ := List.mem_map.mp hx
+    simp only [List.mem_filter, Bool.and_eq_true] at hit
+    obtain ⟨gb, hgb⟩ := Option.isSome_iff_exists.mp hit.2.2
+    simp only [hgb, Option.getD_some] at hxg
+    exact gid_ne a b hab la it.lid g gb hg hgb hxg.symm
 
 /-- **BulkInsert of B never changes a read of A** -/
 theorem C10_write_frame_bulkInsert (s : S) (a b : Tn) (hab : a.idx ≠ b.idx) (items : List Item)
